@@ -427,7 +427,8 @@ aiff_read_header (SF_PRIVATE *psf, COMM_CHUNK *comm_fmt)
 	**	one and then check for the mandatory chunks at the end.
 	*/
 	while (! done)
-	{	unsigned	marker ;
+	{	sf_count_t	chunk_start = psf_binheader_tell (psf) ;
+		unsigned	marker ;
 		size_t jump = chunk_size & 1 ;
 
 		marker = chunk_size = 0 ;
@@ -923,6 +924,12 @@ aiff_read_header (SF_PRIVATE *psf, COMM_CHUNK *comm_fmt)
 
 		if ((! psf->sf.seekable) && (found_chunk & HAVE_SSND))
 			break ;
+
+		/* End of input, or a chunk size that takes the parser back to where it was. */
+		if (psf_binheader_tell (psf) <= chunk_start)
+		{	psf_log_printf (psf, "*** Chunk at position %D does not advance the parser. Exiting parser.\n", chunk_start) ;
+			break ;
+			} ;
 
 		if (psf_ftell (psf) >= psf->filelength - (2 * SIGNED_SIZEOF (int32_t)))
 			break ;
